@@ -28,6 +28,7 @@ VDask(r) ==
   ELSE IF r.out.dims # r.eager.dims \/ r.out.shape # r.eager.shape THEN "dims-differ-from-eager"
   ELSE IF r.out.flat # r.eager.flat THEN "values-differ-from-eager"
   ELSE IF r.out.coords # r.eager.coords THEN "coords-differ-from-eager"
+  ELSE IF r.out.name # r.eager.name THEN "name-differs-from-eager"
   ELSE IF r.kind \in {"op", "vecplain"} /\ (LET e == Expected(r) IN r.out.dims # e.dims \/ r.out.flat # e.arr.flat) THEN "values-differ-from-geometry"
   ELSE "ok"
 
